@@ -2629,6 +2629,20 @@ def _fuse_comps(x):
     if not isinstance(x, tuple):
         return x
     x = tuple(_fuse_comps(y) for y in x)
+    # zip(xs, [f(x) for x in xs]) walks xs with f(x) at its side
+    if len(x) == 4 and x[0] == "comp" and len(x[3]) == 1 and isinstance(x[3][0][0], tuple) and x[3][0][0][:1] == ("tuple",) and len(x[3][0][0][1]) == 2 \
+            and all(isinstance(b, tuple) and b[:1] == ("b",) for b in x[3][0][0][1]) and isinstance(x[3][0][1], tuple) \
+            and x[3][0][1][:2] == ("c", ("g", "zip")) and len(x[3][0][1][2]) == 2 and not x[3][0][1][3]:
+        (b_a, b_b), (za, zb), cond = x[3][0][0][1], x[3][0][1][2], x[3][0][2]
+        for src, derived, b_src, b_der in ((za, zb, b_a, b_b), (zb, za, b_b, b_a)):
+            if _simple_comp(derived) and derived[1] == "list" and derived[3][0][1] == src and derived[3][0][2] == K_TRUE and derived[3][0][0][:1] == ("b",) \
+                    and not _free_bound(src):
+                val = Sigma(raw_subst={derived[3][0][0]: b_src}).apply(derived[2][0])
+                sg = Sigma(raw_subst={b_der: val})
+                new_b = ("b", 1, 0)
+                ren = Sigma(raw_subst={b_src: new_b})
+                x = ("comp", x[1], tuple(ren.apply(sg.apply(e)) for e in x[2]), ((new_b, src, ren.apply(sg.apply(cond))),))
+                break
     if len(x) == 4 and x[0] == "comp" and len(x[3]) == 1 and _simple_comp(x[3][0][1]):
         tgt, inner, cond = x[3][0]
         mp = _match_target(tgt, inner[2][0])
